@@ -48,6 +48,7 @@ ASSUMPTIONS = [
 METHODS = ['GET', 'GET', 'GET', 'HEAD', 'HEAD', 'POST', 'PUT', 'DELETE', 'OPTIONS', 'PATCH']
 STATUSES = [200, 201, 202, 204, 301, 304, 400, 404, 418, 500, 503, 100, 101, 299, '200 OK', '404 Nope', '204 Gone Fishing', 999]
 NO_BODY = {100, 101, 204, 304}
+BAD_STATUSES = [1000, 99, '200', 'nonsense', '9999 Way Too Big']     # refused by the response object (ValueError)
 EXCS = ['ValueError', 'KeyError', 'Custom', 'Unprintable', 'HTTPError:418', 'HTTPError:500', 'HTTPError:404', 'HTTPResponse:202',
         'HTTPResponse:204', 'AssertionError', 'StopIteration', 'RuntimeError']
 TEXTS = ['x', 'hello', 'héllo wörld', '日本', '', 'a' * 100, '<b>&</b>']
@@ -133,7 +134,8 @@ def gen_headers(rng):
 def _gen_case(rng, tier):
     case = {
         'method': rng.choice(METHODS),
-        'path': rng.choice(['hit', 'hit', 'hit', 'hit', 'miss', 'wrong_method']),
+        'path': rng.choice(['hit', 'hit', 'hit', 'hit', 'hit', 'hit', 'hit', 'hit', 'miss', 'miss', 'wrong_method', 'wrong_method',
+                            'miss_scoped']),
         'result': gen_result(rng),
         'mutations': [],
         'before': rng.choice([0, 0, 1, 2, 3]),
@@ -156,7 +158,10 @@ def _gen_case(rng, tier):
             if rng.random() < 0.8 else None
     for _ in range(rng.choice([0, 0, 1, 2, 3])):
         r = rng.random()
-        if r < 0.4:
+        if r < 0.03:
+            # a status the response object refuses: the handler fails there (one more handler failure)
+            case['mutations'].append(['status', rng.choice(BAD_STATUSES)])
+        elif r < 0.4:
             case['mutations'].append(['status', rng.choice(STATUSES)])
         elif r < 0.75:
             h = gen_headers(rng)[0]
@@ -191,7 +196,7 @@ def _gen_case(rng, tier):
                               'code': rng.choice([None, 301, 307])}
         else:
             case['result'] = {'k': 'abort', 'code': rng.choice([400, 401, 404, 418, 500, 503]), 'text': rng.choice(TEXTS) or 'x'}
-    if case['before'] and case['path'] != 'miss' and rng.random() < 0.12:
+    if case['before'] and case['path'] not in ('miss', 'miss_scoped') and rng.random() < 0.12:
         case['rewrite'] = rng.choice(['path', 'method'])
     primed = case['result'].get('k') == 'read_body' and case.get('prime')
     if case['before'] and not primed and rng.random() < 0.06:
@@ -464,7 +469,10 @@ def setup_app(case):
                     app.request['REQUEST_METHOD'] = case['method']
             ctx.maybe_fault(f'before:{j}')
         bhooks[j] = bh
-        app.add_hook('before_request', bh)
+        if j % 2:
+            app.on('before_request', bh)
+        else:
+            app.add_hook('before_request', bh)
     for j in range(case['after']):
         def ah(j=j):
             _cur().ev.append(('after', j))
@@ -491,6 +499,10 @@ def setup_app(case):
         if case['method'] == 'HEAD':
             route_methods = ['POST']
     app.route('/r/sub', method=route_methods, callback=handler)
+    if case['path'] == 'miss_scoped':
+        # a 404 handler scoped to a URL prefix: for a path below /r that matches no route the program's handler runs
+        # as that handler (any outcome a route handler can have)
+        app.error(404, rule='/r')(lambda prefix, params: handler())
     if case['route_hook']:
         def rh(prefix):
             ctx = _cur()
@@ -539,7 +551,9 @@ def serve_and_check(case, app, suffix):
     ctx.suffix = suffix
     _TL.ctx = ctx
     path = '/nowhere' if case['path'] == 'miss' else '/r/sub'
-    if case.get('rewrite') == 'path' and case['path'] != 'miss':
+    if case['path'] == 'miss_scoped':
+        path = '/r/elsewhere'
+    if case.get('rewrite') == 'path' and case['path'] not in ('miss', 'miss_scoped'):
         path = '/alias/of/it'
     if case.get('path_suffix') and case['path'] == 'miss':
         # WSGI hands PATH_INFO over as latin-1 decoded bytes
@@ -626,7 +640,8 @@ def serve_and_check(case, app, suffix):
     # ---- module-level helpers on the default application ----
     if case.get('use_default') and case['path'] == 'hit' and not ctx.fault_raised and r.escaped is None \
             and 'handler' in [e[0] for e in events] and not case.get('error_handlers') \
-            and not any(m[0] == 'header' and '\udcff' in m[2] for m in case['mutations']):
+            and not any(m[0] == 'header' and '\udcff' in m[2] for m in case['mutations']) \
+            and not any(m[0] == 'status' and m[1] in BAD_STATUSES for m in case['mutations']):
         rk = case['result']
         want = None
         if rk['k'] == 'abort':
